@@ -110,6 +110,13 @@ def _gate(ck, p, byk):
     if ck.anchor(rule, "LintGroupConfig::is_rule_enabled", fs):
         g = fs[0]
         ck.saw(g)
+        table = _enabled_table(g)
+        if table is not None:
+            want = {"absent": False, "unset": False, "off": False, "on": True}
+            ck.decide(rule, "LintGroupConfig::is_rule_enabled", table == want, g.span, "decision table over the entry of the rule in self.inner (absent / unset / off / on): %s (required %s)" % (table, want))
+            fs = None
+    if fs:
+        g = fs[0]
         pv = Prov(g)
         ret = flatten(pv.trace_local(0))
         ok = False
@@ -364,11 +371,95 @@ def _key(ck, p, byk):
             if not good:
                 ok = False
                 detail += "; a path from the key write back to the loop head writes no value byte: %s" % wit
-        consts = {t["args"][1]["k"].get("int") for _, t in const_w if "int" in t["args"][1].get("k", {})}
-        if len(consts) < 2:
-            ok = False
-            detail += "; Some/None arms are not distinguished by different marker bytes (%s)" % sorted(consts)
+        # what is written for the three states of a switch: unset, off, on - evaluated on the loop body
+        table = _hash_states(h, nexts)
+        if table is None:
+            consts = {t["args"][1]["k"].get("int") for _, t in const_w if "int" in t["args"][1].get("k", {})}
+            if len(consts) < 2:
+                ck.undecided(rule, "<LintGroupConfig as Hash>::hash", h.span, detail + "; the bytes written for unset / off / on could not be evaluated and no two constant markers are visible")
+                return
+        else:
+            detail += "; bytes written after the name for unset/off/on: %s" % ({k: v for k, v in table.items()})
+            if len({tuple(v) for v in table.values()}) < 3:
+                ok = False
+                detail += " - two states of a switch hash alike, so a cached clause is served under a configuration that differs in that rule"
     ck.decide(rule, "<LintGroupConfig as Hash>::hash", ok, h.span, detail)
+
+
+def _enabled_table(g):
+    """is_rule_enabled evaluated for the four possible entries of the rule; None if the body is beyond the evaluator"""
+    from ..interp import Interp, Stuck
+    pv = Prov(g)
+    some = lambda x: ("variant", "Option", 1, "Some", [x], 1)
+    none = ("variant", "Option", 0, "None", [], 0)
+    states = {"absent": none, "unset": some(none), "off": some(some(("bool", False))), "on": some(some(("bool", True)))}
+    out = {}
+    for name, entry in states.items():
+        def call(t, a):
+            m = method(t)
+            if m in ("get", "get_mut") and t["args"] and "inner" in arg_fields(pv, t["args"][0]):
+                return entry
+            if m in ("cloned", "copied", "clone", "as_ref", "as_deref", "deref", "borrow", "into", "from", "as_str", "as_mut"):
+                return a[0]
+            if m == "flatten" and a and a[0][0] == "variant":
+                return a[0][4][0] if a[0][3] == "Some" and a[0][4] and a[0][4][0][0] == "variant" else none
+            if m in ("unwrap_or", "unwrap_or_default", "is_some_and") and a and a[0][0] == "variant":
+                if m == "unwrap_or":
+                    return a[0][4][0] if a[0][3] == "Some" else a[1]
+                if m == "unwrap_or_default":
+                    return a[0][4][0] if a[0][3] == "Some" else ("bool", False)
+            if m in ("is_some", "is_none") and a and a[0][0] == "variant":
+                return ("bool", (a[0][3] == "Some") == (m == "is_some"))
+            if m in ("eq", "ne") and len(a) == 2 and a[0][0] == a[1][0] == "variant":
+                return ("bool", (a[0] == a[1]) == (m == "eq"))
+            raise Stuck("call to %s" % m)
+        try:
+            r, _ = Interp(g, max_steps=400).run({}, hooks={"call": call})
+        except Stuck:
+            return None
+        if r[0] != "bool":
+            return None
+        out[name] = r[1]
+    return out
+
+
+def _hash_states(h, nexts):
+    """bytes written by one iteration of the loop for value = None / Some(false) / Some(true); None if not evaluable"""
+    from ..interp import Interp, Stuck
+    if len(nexts) != 1 or nexts[0][1].get("target") is None or not nexts[0][1].get("dest"):
+        return None
+    nb, nt = nexts[0]
+
+    class Done(Exception):
+        pass
+    out = {}
+    for name, val in (("unset", ("variant", "Option", 0, "None", [], 0)), ("off", ("variant", "Option", 1, "Some", [("bool", False)], 1)), ("on", ("variant", "Option", 1, "Some", [("bool", True)], 1))):
+        written = []
+
+        def call(t, a):
+            m = method(t)
+            if m == "next":
+                raise Done()
+            if def_of(t).startswith("core::hash::Hasher::write"):
+                v = a[1] if len(a) > 1 else ("unknown", "")
+                if m != "write":
+                    if v[0] not in ("int", "bool"):
+                        raise Stuck("value byte is not a constant")
+                    written.append(int(v[1]))
+                return ("tuple", [])
+            if m in ("as_bytes", "as_str", "deref", "as_ref", "borrow", "len"):
+                return ("unknown", "key bytes")
+            raise Stuck("call to %s" % m)
+        entry = ("variant", "Option", 1, "Some", [("tuple", [("unknown", "key"), val])], 1)
+        env = {nt["dest"][0]: entry}
+        try:
+            Interp(h, max_steps=600).run(env, nt["target"], 0, {"call": call})
+            return None         # left the function: not the loop body
+        except Done:
+            out[name] = list(written)
+        except Stuck:
+            return None
+    return out
 
 
 def _from_entry(h, pv, op, idx):
@@ -441,6 +532,33 @@ def _merge(ck, p, byk):
         cfg = Cfg(f)
         pv = Prov(f)
         ins = [(bi, t) for bi, t in f.calls() if method(t) == "insert" and "inner" in arg_fields(pv, t["args"][0])]
+        if not ins:
+            # other forms of the same copy: self.inner.extend(other.inner.iter().filter(|(_, v)| v.is_some()) ..)
+            ext = [(bi, t) for bi, t in f.calls() if method(t) == "extend" and "inner" in arg_fields(pv, t["args"][0])]
+            if len(ext) == 1:
+                roots = arg_roots(f, pv, ext[0][1]["args"][1])
+                filt = [o for o in roots if o[0] == "call" and method_of(o) in ("filter", "filter_map")]
+                tests = False
+                for o in filt:
+                    ft = f.blocks[o[1]]["t"]
+                    for x in pv.trace_operand(ft["args"][-1]):
+                        if x[0] == "agg" and x[1] == "closure" and x[2] in p.fns:
+                            c = p.fns[x[2]]
+                            names = {method(tt) for _, tt in c.calls()}
+                            has_discr = any(sx["k"] == "assign" and sx["rv"]["k"] == "discr" for b in c.blocks for sx in b["s"])
+                            others = names - {"is_some", "is_none", "deref", "as_ref", "clone", "cloned", "copied", "map", "then", "then_some"}
+                            if (names & {"is_some", "is_none"} or has_discr) and not others:
+                                tests = True
+                if filt and tests:
+                    ck.proved(rule, "LintGroupConfig::merge_from", f.span, "self.inner.extend(..) over the other configuration's entries filtered by `val` being set only")
+                elif not filt:
+                    ck.refuted(rule, "LintGroupConfig::merge_from", f.span, "self.inner.extend(..) copies every entry of the other configuration, unset ones included: they overwrite explicit choices")
+                else:
+                    ck.undecided(rule, "LintGroupConfig::merge_from", f.span, "self.inner.extend(..) behind a filter that is not recognisably a test of `val` being set")
+            else:
+                ck.undecided(rule, "LintGroupConfig::merge_from", f.span, "neither an insert in a loop over the other configuration nor a single extend of self.inner: the copy is not of a recognised form")
+            ins = None
+    if fs and ins is not None:
         ok = len(ins) == 1
         detail = "insert sites=%d" % len(ins)
         loops = cfg.natural_loops()
@@ -507,8 +625,25 @@ def _merge(ck, p, byk):
         cur = calls_to(f, "::new_curated")
         swp = calls_to(f, "mem::swap")
         mrg = calls_to(f, "::merge_from")
+        rpl = calls_to(f, "mem::replace")
+        if len(cur) == 1 and not swp and len(rpl) == 1 and len(mrg) == 1:
+            # let mut user = mem::replace(self, new_curated()); self.merge_from(&mut user)
+            (cb, ct), (rb, rt), (mb, mt) = cur[0], rpl[0], mrg[0]
+            repl_self = ("arg", 1) in flatten(pv.trace_operand(rt["args"][0]))
+            repl_new = any(o[0] == "call" and o[1] == cb for o in flatten(pv.trace_operand(rt["args"][1])))
+            old_local = rt["dest"][0]
+            merge_recv_self = ("arg", 1) in flatten(pv.trace_operand(mt["args"][0]))
+            merge_other_old = (pv.mut_base.get(place_of(mt["args"][1])[0]) == old_local) if place_of(mt["args"][1]) else False
+            order = cfg.dominates(rb, mb)
+            ck.decide(rule, "LintGroupConfig::fill_with_curated", repl_self and repl_new and merge_recv_self and merge_other_old and order, f.span,
+                      "old=replace(self, new_curated())=%s; self.merge_from(&mut old)=%s; in this order=%s" % (repl_self and repl_new, merge_recv_self and merge_other_old, order))
+            fs = None
+    if fs:
         ok = len(cur) == 1 and len(swp) == 1 and len(mrg) == 1
         detail = "new_curated=%d swap=%d merge_from=%d" % (len(cur), len(swp), len(mrg))
+        if not ok and (len(cur) != 1 or len(mrg) != 1):
+            ck.undecided(rule, "LintGroupConfig::fill_with_curated", f.span, detail + ": not of a recognised form (swap / replace with the curated defaults, then merge the user's choices back)")
+            ok = None
         if ok:
             (cb, ct), (sb, st), (mb, mt) = cur[0], swp[0], mrg[0]
             temp = ct["dest"][0]
@@ -520,13 +655,21 @@ def _merge(ck, p, byk):
             order = cfg.dominates(cb, sb) and cfg.dominates(sb, mb)
             ok = swap_self and swap_temp and merge_recv_self and merge_other_temp and order
             detail = "temp=new_curated(); swap(self,temp)=%s; self.merge_from(&mut temp)=%s; in this order=%s" % (swap_self and swap_temp, merge_recv_self and merge_other_temp, order)
-        ck.decide(rule, "LintGroupConfig::fill_with_curated", ok, f.span, detail)
+        if ok is not None:
+            ck.decide(rule, "LintGroupConfig::fill_with_curated", ok, f.span, detail)
     fs = byk.get("LintGroupConfig::set_rule_enabled_if_unset")
     if ck.anchor(rule, "LintGroupConfig::set_rule_enabled_if_unset", fs):
         f = fs[0]
         ck.saw(f)
         cfg = Cfg(f)
         sets = [(bi, t) for bi, t in f.calls() if method(t) in ("set_rule_enabled", "insert")]
+        ors = [(bi, t) for bi, t in f.calls() if method(t) in ("or_insert", "or_insert_with", "or_default")]
+        if not sets and ors and any(method(t) == "entry" for _, t in f.calls()):
+            ck.proved(rule, "LintGroupConfig::set_rule_enabled_if_unset", f.span, "inner.entry(key).or_insert(..): an existing entry is left alone")
+            return
+        if not sets:
+            ck.undecided(rule, "LintGroupConfig::set_rule_enabled_if_unset", f.span, "no insert / set_rule_enabled / entry().or_insert() found: form not recognised")
+            return
         ok = bool(sets)
         for bi, t in sets:
             g = gate_for(f, cfg, bi, lambda x: method(x) == "contains_key", want=False)
